@@ -3,88 +3,287 @@ import Nsq.Model.RelayRedirect
 import Nsq.Proofs.RelayRedirect
 import Nsq.Tie.ToolsRelayRedirect
 /-!
-# C20, audit round 7 item C3 — nsq_to_http and HTTP redirects
+# C20, audit round 7 item C3 / round 11 (fix F45b) — nsq_to_http and HTTP redirects
 
 `Nsq.Props.C20.http_fin_only_after_accept` speaks about the status *the publisher sees*. On the wire
-that status may come from another request than the one that carried the message: the `http.Client`
-of the tree before fix F45 follows redirects, and net/http repeats a POST answered 301/302/303 as a
-GET **without the body** (a redirected GET loses the query string that holds the message). The
-statements here are about the wire (`Nsq.Model.RelayRedirect`): `Delivered … a body` = some request of
+that status may come from another request than the one that carried the message: an `http.Client`
+follows redirects, and net/http repeats a POST answered 301/302/303 as a GET **without the body**.
+The statements here are about the wire (`Nsq.Model.RelayRedirect`): `Delivered … a body` = some request of
 the chain that starts at address `a` carried the message bytes, with the publisher's method, and was
-answered with an accepted status (2xx for POST, 200 for GET).
+answered with an accepted status (2xx for POST, 200 for GET). The client is a parameter: a `Check` =
+what its `CheckRedirect` decides (`checkNever` = fix F45, `checkSameMethod` = fix F45b, `checkDefault` =
+no `CheckRedirect`, the tree before F45).
 
-* `http_fin_only_after_body_accepted` — client of the fixed tree (`follow = false`,
-  `CheckRedirect = ErrUseLastResponse`): full statement, every world, every mode.
-* `http_fin_only_after_body_accepted_following_false` — client of the unfixed tree (`follow = true`):
-  refuted by the audit's witness "302 → elsewhere → 200";
-  `http_fin_only_after_body_accepted_following_partial` — it holds when no endpoint answers with a
-  redirect that makes the client drop the message (`NoLossyRedirect`: only 307/308, only for POST).
-* `redirect_answer_requeues` — fixed client: a 3xx answer (with or without `Location`) is never a success.
-Which client a tree has is regenerated from `main()` (`Nsq.Tie.ToolsRelayRedirect`) and probed on the
-real binary on every run (`harness/e8/n2h_redirect_test.go`). F45 is committed (/repo 2a7fc8c): the tie accepts
-only the non-following client (`tree_follows : follows = false`) and `http_fin_only_after_body_accepted_this_tree`
-is the statement about the checked tree; the `…_following_*` theorems are about the client before F45.
+What the client guarantees (`Nsq.Proofs.RelayRedirect`): `MethodPreserving check` — a follow-up request is sent
+only if net/http kept the method of the first request; `Limited` — at most ten requests; `NoError` — the caller
+always gets the last answer. All three are proved for `checkNever` and `checkSameMethod`
+(`sameMethod_follows_exactly`: it follows EXACTLY the method-preserving redirects below the limit).
+
+* `http_fin_only_after_body_accepted` — **POST publisher, any method-preserving client** (in particular both
+  accepted shapes of the tree), every world, every mode: full statement. A POST answered 307/308 is re-sent with the
+  body (every request of the chain carries it), a POST answered 301/302/303 is handed back (`method_changing_redirect_requeues`).
+* `http_fin_only_after_body_accepted_never` — client of fix F45, POST **and** GET: full statement (no redirect is followed).
+* GET publisher with a client that follows (F45b): the message travels in the query string of the URL, the follow-up GET
+  goes to whatever URL the destination's `Location` names. `http_fin_only_after_body_accepted_get_partial` — hypothesis
+  `KeepsQuery`: every `Location` answered to a GET repeats its query (http→https, trailing slash, another host with the same
+  request URI); `http_fin_only_after_body_accepted_get_false` — without it the statement is false for `checkSameMethod`
+  (GET `?d=p` → 302 `Location: /elsewhere` → GET without the message → 200 → `Finish`). What holds for the GET publisher
+  whatever the `Location`s say is `http_fin_chain_accepted`: the destination got the message in the first request of
+  the chain, every request of the chain was a GET and the chain it directed the client through ended in 200.
+  NOT claimed for the GET publisher of the F45b tree: that a request which carried the message was itself answered 200.
+* `at_most_ten_requests`, `seen_is_last_answer`, `redirect_loop_requeues` — the limit: the answer to the tenth request is
+  handed back whatever it is; a 3xx is not accepted.
+* `http_fin_only_after_body_accepted_following_false` / `…_following_partial` — the client without `CheckRedirect`
+  (tree before F45): refuted by the audit's witness "302 → elsewhere → 200"; holds under `NoLossyRedirect`.
+* `redirect_answer_requeues` — client of F45: a 3xx answer (with or without `Location`) is never a success.
+Which client a tree has is *translated* from `noRedirect` (`Nsq.Tie.ToolsRelayRedirect.treeCheck`, `n2hClient_shape`:
+exactly `checkNever` or `checkSameMethod`) and probed on the real binary on every run
+(`harness/e8/n2h_redirect_test.go`); `http_fin_only_after_body_accepted_this_tree` is the statement about the checked tree.
 -/
 namespace Nsq.Props.C20Redirect
 open Nsq.Model.Relay Nsq.Model.Relay.Http Nsq.Model.RelayRedirect Nsq.Proofs.RelayRedirect
 
-/-- the conclusion shared by the three statements: sampling dropped the message, or every request the
+/-- the conclusion shared by the statements: sampling dropped the message, or every request the
 handler made was `Delivered`, every configured address was asked in mode *all*, and at least one
 address was asked otherwise -/
-def FinJustified (follow : Bool) (c : Cfg) (m : Msg) (so : Bool) (w : World) (out : List Out) : Prop :=
+def FinJustified (check : Check) (c : Cfg) (m : Msg) (so : Bool) (w : World) (out : List Out) : Prop :=
   (c.sampling = true ∧ so = true) ∨
-  ((∀ a b ok, Out.request a b ok ∈ out → Delivered follow c.post w a m.body) ∧
+  ((∀ a b ok, Out.request a b ok ∈ out → Delivered check c.post w a m.body) ∧
    (c.mode = .all → ∀ a < c.naddr, Out.request a m.body true ∈ out) ∧
    (c.mode ≠ .all → ∃ a, Out.request a m.body true ∈ out))
 
-/-- **FIN only after a destination received the body (fixed client).** With the client that does not
-follow redirects a `Finish` means: sampling dropped the message, or each request that the handler made
-carried the body and was itself answered with an accepted status — at every configured address in mode
-*all*, at the chosen one otherwise. -/
-theorem http_fin_only_after_body_accepted (c : Cfg) (counter : Nat) (m : Msg) (so : Bool) (pick : Nat) (w : World)
-    (hfin : Out.fin m.id ∈ (stepVia false c counter m so pick w).2) :
-    FinJustified false c m so w (stepVia false c counter m so pick w).2 := by
+/-- the common core: a client whose chains keep the message (for this publisher, this world, this body) -/
+theorem fin_justified_of_chainKeeps (check : Check) (c : Cfg) (counter : Nat) (m : Msg) (so : Bool) (pick : Nat)
+    (w : World) (hk : ChainKeeps check w c.post m.body)
+    (hfin : Out.fin m.id ∈ (stepVia check c counter m so pick w).2) :
+    FinJustified check c m so w (stepVia check c counter m so pick w).2 := by
   unfold stepVia at hfin ⊢
   cases Nsq.Props.C20.http_fin_only_after_accept c counter m so pick _ hfin with
   | inl h => exact Or.inl h
   | inr h =>
     obtain ⟨hacc, hall, hone⟩ := h
-    exact Or.inr ⟨fun a b ok hreq => delivered_nofollow c.post w a m.body (hacc a b ok hreq).2, hall, hone⟩
+    exact Or.inr ⟨fun a b ok hreq => delivered_of_keeps check c.post w a m.body hk (hacc a b ok hreq).2, hall, hone⟩
 
-/-- (the audit's world, also `wMoved` below) -/
-def wMovedT : World := fun ep _ _ => if ep = 0 then .status 302 (some 1) else .status 200 none
+/-- **FIN only after a destination accepted the body (POST publisher, method-preserving client).** With a client that
+follows only redirects which keep the method — the client of fix F45 and the client of fix F45b — a `Finish` means:
+sampling dropped the message, or for each request that the handler made some request of its redirect chain carried the
+body as a POST and was itself answered 2xx — at every configured address in mode *all*, at the chosen one otherwise.
+Every world: any status, any `Location`, chains, loops, transport errors. -/
+theorem http_fin_only_after_body_accepted (check : Check) (hmp : MethodPreserving check) (c : Cfg) (hpost : c.post = true)
+    (counter : Nat) (m : Msg) (so : Bool) (pick : Nat) (w : World)
+    (hfin : Out.fin m.id ∈ (stepVia check c counter m so pick w).2) :
+    FinJustified check c m so w (stepVia check c counter m so pick w).2 :=
+  fin_justified_of_chainKeeps check c counter m so pick w (by rw [hpost]; exact chainKeeps_post check hmp w m.body) hfin
 
-/-- THIS tree (audit B12): the `follow` parameter is the Bool computed from the regenerated `http.Client` literal of
-`main()`, which the tie decides to be `false`; a tree that reverts F45 fails `tree_follows` and this theorem with it. -/
+/-- the client of fix F45b follows EXACTLY the redirects that keep the method, while fewer than ten requests were made -/
+theorem sameMethod_follows_exactly (reqPost via0Post : Bool) (nvia : Nat) :
+    checkSameMethod reqPost via0Post nvia = .follow ↔ reqPost = via0Post ∧ nvia < 10 :=
+  sameMethod_follows_iff reqPost via0Post nvia
+
+/-- … hence it is method-preserving, limited, and never fails `Do` (and so is the client of F45) -/
+theorem accepted_clients_guarantee :
+    (MethodPreserving checkSameMethod ∧ Limited checkSameMethod ∧ NoError checkSameMethod) ∧
+    (MethodPreserving checkNever ∧ Limited checkNever ∧ NoError checkNever) :=
+  ⟨⟨methodPreserving_sameMethod, limited_sameMethod, noError_sameMethod⟩,
+   ⟨methodPreserving_never, limited_never, noError_never⟩⟩
+
+/-- **client of fix F45 (follows nothing), POST and GET**: full statement -/
+theorem http_fin_only_after_body_accepted_never (c : Cfg) (counter : Nat) (m : Msg) (so : Bool) (pick : Nat) (w : World)
+    (hfin : Out.fin m.id ∈ (stepVia checkNever c counter m so pick w).2) :
+    FinJustified checkNever c m so w (stepVia checkNever c counter m so pick w).2 := by
+  refine fin_justified_of_chainKeeps checkNever c counter m so pick w ?_ hfin
+  intro ep lk n _ hc
+  simp [checkNever] at hc
+
+/-- **GET publisher, any client** — under the hypothesis that the destinations' `Location`s repeat the query of the GET
+they answer (`KeepsQuery`) -/
+theorem http_fin_only_after_body_accepted_get_partial (check : Check) (c : Cfg) (hget : c.post = false)
+    (counter : Nat) (m : Msg) (so : Bool) (pick : Nat) (w : World) (hq : KeepsQuery w)
+    (hfin : Out.fin m.id ∈ (stepVia check c counter m so pick w).2) :
+    FinJustified check c m so w (stepVia check c counter m so pick w).2 :=
+  fin_justified_of_chainKeeps check c counter m so pick w (by rw [hget]; exact chainKeeps_get check w hq m.body) hfin
+
+/-- the statement without `KeepsQuery` for the client of fix F45b -/
+def http_fin_only_after_body_accepted_get : Prop :=
+  ∀ (c : Cfg) (_ : c.post = false) (counter : Nat) (m : Msg) (so : Bool) (pick : Nat) (w : World),
+    Out.fin m.id ∈ (stepVia checkSameMethod c counter m so pick w).2 →
+      FinJustified checkSameMethod c m so w (stepVia checkSameMethod c counter m so pick w).2
+
+/-- the configured address answers `302 Location: /elsewhere` (the query is not repeated), `elsewhere` answers 200 -/
+def wMoved : World := fun ep _ _ => if ep = 0 then .status 302 (some ⟨1, false⟩) else .status 200 none
+/-- the same redirect with the query repeated in the `Location` -/
+def wMovedQ : World := fun ep _ _ => if ep = 0 then .status 302 (some ⟨1, true⟩) else .status 200 none
+
+/-- … is **false**: GET `?d=p` → 302 → GET elsewhere without the message → 200 → `Finish`; no request that carried
+`"p"` was answered 200. -/
+theorem http_fin_only_after_body_accepted_get_false : ¬ http_fin_only_after_body_accepted_get := by
+  intro h
+  have hstep : (stepVia checkSameMethod ⟨.roundRobin, 1, false, false⟩ 0 ⟨7, [112]⟩ false 0 wMoved).2 =
+      [Out.request 0 [112] true, Out.fin 7] := by decide
+  have hwire : wireOf checkSameMethod false wMoved 0 [112] =
+      [⟨0, false, some [112], some 302⟩, ⟨1, false, none, some 200⟩] := by decide
+  have := h ⟨.roundRobin, 1, false, false⟩ rfl 0 ⟨7, [112]⟩ false 0 wMoved (by rw [hstep]; simp)
+  rw [hstep] at this
+  cases this with
+  | inl h => cases h.1
+  | inr h =>
+    obtain ⟨x, hx, hp, _, hacc⟩ := h.1 0 [112] true (by simp)
+    simp only [hwire] at hx
+    simp at hx
+    rcases hx with rfl | rfl
+    · simp [accepts] at hacc
+    · simp at hp
+
+/-- what the chain of one request guarantees whatever the `Location`s say: the first request went to the configured
+address with the message, every request of the chain had the publisher's method, the answer to the last one was accepted -/
+def AcceptedByChain (check : Check) (post : Bool) (w : World) (a : Nat) (body : Bytes) : Prop :=
+  (∃ st, (wireOf check post w a body).head? = some ⟨a, post, some body, st⟩) ∧
+  (∀ x ∈ wireOf check post w a body, x.post = post) ∧
+  accepts post ((wireOf check post w a body).getLast?.bind (·.status)) = true
+
+/-- **Method-preserving client, POST or GET, every world**: a `Finish` means sampling dropped the message, or every
+request the handler made was `AcceptedByChain` (at every address in mode *all*, at one otherwise): the destination
+received the message, was never asked with another method than the publisher's, and the chain it directed the client
+through ended in an accepted status. For the GET publisher this is all that is claimed without `KeepsQuery`. -/
+theorem http_fin_chain_accepted (check : Check) (hmp : MethodPreserving check) (c : Cfg) (counter : Nat) (m : Msg)
+    (so : Bool) (pick : Nat) (w : World)
+    (hfin : Out.fin m.id ∈ (stepVia check c counter m so pick w).2) :
+    (c.sampling = true ∧ so = true) ∨
+    ((∀ a b ok, Out.request a b ok ∈ (stepVia check c counter m so pick w).2 → AcceptedByChain check c.post w a m.body) ∧
+     (c.mode = .all → ∀ a < c.naddr, Out.request a m.body true ∈ (stepVia check c counter m so pick w).2) ∧
+     (c.mode ≠ .all → ∃ a, Out.request a m.body true ∈ (stepVia check c counter m so pick w).2)) := by
+  unfold stepVia at hfin ⊢
+  cases Nsq.Props.C20.http_fin_only_after_accept c counter m so pick _ hfin with
+  | inl h => exact Or.inl h
+  | inr h =>
+    obtain ⟨hacc, hall, hone⟩ := h
+    refine Or.inr ⟨fun a b ok hreq => ?_, hall, hone⟩
+    have ha := (hacc a b ok hreq).2
+    unfold seenBy at ha
+    obtain ⟨h1, h2⟩ := doReq_chain check hmp c.post w redirectFuel 0 a (some m.body)
+    refine ⟨⟨_, doReq_head check w c.post 9 0 a c.post (some m.body)⟩, h1, ?_⟩
+    cases hs : (doReq check w c.post redirectFuel 0 a c.post (some m.body)).2 with
+    | none => rw [hs] at ha; simp [accepts] at ha
+    | some s =>
+      unfold wireOf
+      rw [h2 s hs, ← hs]; exact ha
+
+/-- the `Check` of THIS tree (translated from its `noRedirect`) is method-preserving, limited, and never an error -/
+theorem tree_check_guarantees : MethodPreserving Nsq.Tie.ToolsRelayRedirect.treeCheck ∧
+    Limited Nsq.Tie.ToolsRelayRedirect.treeCheck ∧ NoError Nsq.Tie.ToolsRelayRedirect.treeCheck := by
+  rcases Nsq.Tie.ToolsRelayRedirect.n2hClient_shape with h | h <;> rw [h]
+  · exact ⟨methodPreserving_never, limited_never, noError_never⟩
+  · exact ⟨methodPreserving_sameMethod, limited_sameMethod, noError_sameMethod⟩
+
+/-- the two accepted shapes differ (so `hget` below is vacuous on a tree whose client is `checkNever`) -/
+theorem never_ne_sameMethod : checkNever ≠ checkSameMethod := by
+  intro h
+  have := congrFun (congrFun (congrFun h true) true) 1
+  simp [checkNever, checkSameMethod] at this
+
+/-- **THIS tree** (audit B12): the client is the `Check` translated from the tree's `noRedirect`, which the tie decides
+to be `checkNever` (F45, committed) or `checkSameMethod` (F45b). POST publisher: no hypothesis. GET publisher: when the
+client is the following one, `KeepsQuery` (`hget` is vacuous for `checkNever`: `never_ne_sameMethod`). A tree that reverts
+F45, or whose `noRedirect` decides anything else, fails `n2hClient_shape` and this theorem with it. -/
 theorem http_fin_only_after_body_accepted_this_tree (c : Cfg) (counter : Nat) (m : Msg) (so : Bool) (pick : Nat)
     (w : World)
-    (hfin : Out.fin m.id ∈ (stepVia Nsq.Tie.ToolsRelayRedirect.follows c counter m so pick w).2) :
-    FinJustified Nsq.Tie.ToolsRelayRedirect.follows c m so w
-      (stepVia Nsq.Tie.ToolsRelayRedirect.follows c counter m so pick w).2 := by
-  rw [Nsq.Tie.ToolsRelayRedirect.tree_follows] at hfin ⊢
-  exact http_fin_only_after_body_accepted c counter m so pick w hfin
+    (hget : c.post = false → Nsq.Tie.ToolsRelayRedirect.treeCheck = checkSameMethod → KeepsQuery w)
+    (hfin : Out.fin m.id ∈ (stepVia Nsq.Tie.ToolsRelayRedirect.treeCheck c counter m so pick w).2) :
+    FinJustified Nsq.Tie.ToolsRelayRedirect.treeCheck c m so w
+      (stepVia Nsq.Tie.ToolsRelayRedirect.treeCheck c counter m so pick w).2 := by
+  cases hp : c.post with
+  | true => exact http_fin_only_after_body_accepted _ tree_check_guarantees.1 c hp counter m so pick w hfin
+  | false =>
+    rcases Nsq.Tie.ToolsRelayRedirect.n2hClient_shape with h | h
+    · rw [h] at hfin ⊢
+      exact http_fin_only_after_body_accepted_never c counter m so pick w hfin
+    · exact http_fin_only_after_body_accepted_get_partial _ c hp counter m so pick w (hget hp h) hfin
 
-/-- non-vacuity: this tree's client on the audit's world — one request, requeue -/
-example : (stepVia Nsq.Tie.ToolsRelayRedirect.follows ⟨.roundRobin, 1, true, false⟩ 0 ⟨7, [112]⟩ false 0 wMovedT).2 =
+/-- … and whatever the `Location`s say (GET publisher included) -/
+theorem http_fin_chain_accepted_this_tree (c : Cfg) (counter : Nat) (m : Msg) (so : Bool) (pick : Nat) (w : World)
+    (hfin : Out.fin m.id ∈ (stepVia Nsq.Tie.ToolsRelayRedirect.treeCheck c counter m so pick w).2) :
+    (c.sampling = true ∧ so = true) ∨
+    ((∀ a b ok, Out.request a b ok ∈ (stepVia Nsq.Tie.ToolsRelayRedirect.treeCheck c counter m so pick w).2 →
+        AcceptedByChain Nsq.Tie.ToolsRelayRedirect.treeCheck c.post w a m.body) ∧
+     (c.mode = .all → ∀ a < c.naddr, Out.request a m.body true ∈ (stepVia Nsq.Tie.ToolsRelayRedirect.treeCheck c counter m so pick w).2) ∧
+     (c.mode ≠ .all → ∃ a, Out.request a m.body true ∈ (stepVia Nsq.Tie.ToolsRelayRedirect.treeCheck c counter m so pick w).2)) :=
+  http_fin_chain_accepted _ tree_check_guarantees.1 c counter m so pick w hfin
+
+/-- non-vacuity: this tree's client on the audit's world (POST → 302): one request, requeue — on both accepted shapes -/
+example : (stepVia Nsq.Tie.ToolsRelayRedirect.treeCheck ⟨.roundRobin, 1, true, false⟩ 0 ⟨7, [112]⟩ false 0 wMoved).2 =
     [Out.request 0 [112] false, Out.req 7] := by
-  rw [Nsq.Tie.ToolsRelayRedirect.tree_follows]; decide
+  rcases Nsq.Tie.ToolsRelayRedirect.n2hClient_shape with h | h <;> rw [h] <;> decide
 
-/-- the same statement for the client that follows redirects (tree before fix F45) -/
+/-! ### the ten-request limit -/
+
+/-- a `Limited` client (both accepted shapes, and net/http's default) makes at most ten requests per `Publish`;
+the `fuel` of the model is never what ends a chain -/
+theorem at_most_ten_requests (check : Check) (hl : Limited check) (post : Bool) (w : World) (a : Nat) (body : Bytes) :
+    (wireOf check post w a body).length ≤ 10 ∧
+    ∀ fuel, 10 ≤ fuel → doReq check w post fuel 0 a post (some body) = doReq check w post redirectFuel 0 a post (some body) :=
+  ⟨doReq_length check hl w post redirectFuel 0 a post (some body) (by omega),
+   fun fuel hf => doReq_fuel_irrelevant check hl w post fuel 0 a post (some body) (by omega) (by omega)⟩
+
+/-- a client that is `Limited` and `NoError` (both accepted shapes) hands the publisher the answer to the last request it
+made — after ten requests the tenth answer, whatever it is -/
+theorem seen_is_last_answer (check : Check) (hl : Limited check) (he : NoError check) (post : Bool) (w : World) (a : Nat)
+    (body : Bytes) :
+    seenBy check post w body a = (wireOf check post w a body).getLast?.bind (·.status) :=
+  doReq_seen_is_last check hl he w post redirectFuel 0 a post (some body) (by omega) (by decide)
+
+/-- **A POST answered 301/302/303 is a failed delivery (client of fix F45b)**: net/http would repeat it as a GET without
+the body; the client hands the 3xx back, the publisher does not accept it, exactly one request is made. -/
+theorem method_changing_redirect_requeues (w : World) (body : Bytes) (a code : Nat) (loc : Option Loc)
+    (hans : w a true (some body) = .status code loc) (h3 : code = 301 ∨ code = 302 ∨ code = 303) :
+    seenBy checkSameMethod true w body a = some code ∧ accepts true (seenBy checkSameMethod true w body a) = false ∧
+    wireOf checkSameMethod true w a body = [⟨a, true, some body, some code⟩] := by
+  have hd : doReq checkSameMethod w true redirectFuel 0 a true (some body) =
+      ([⟨a, true, some body, some code⟩], some code) := by
+    unfold redirectFuel doReq
+    rw [hans]
+    cases loc with
+    | none => simp [followUp, finalOf]
+    | some l =>
+      have hk : redirectKind code = some false := by
+        rcases h3 with h | h | h <;> subst h <;> decide
+      simp [followUp, hk, checkSameMethod, finalOf]
+  unfold seenBy wireOf
+  rw [hd]
+  refine ⟨rfl, ?_, rfl⟩
+  rcases h3 with h | h | h <;> subst h <;> simp [accepts]
+
+/-- a redirect loop that keeps the method (307 to itself): ten requests, each with the body; the publisher sees the
+tenth 307 and requeues (net/http's default client reports an error instead — a requeue as well) -/
+theorem redirect_loop_requeues :
+    (wireOf checkSameMethod true (fun _ _ _ => .status 307 (some ⟨0, false⟩)) 0 [112]).length = 10 ∧
+    (∀ x ∈ wireOf checkSameMethod true (fun _ _ _ => .status 307 (some ⟨0, false⟩)) 0 [112], x.payload = some [112]) ∧
+    seenBy checkSameMethod true (fun _ _ _ => .status 307 (some ⟨0, false⟩)) [112] 0 = some 307 ∧
+    accepts true (seenBy checkSameMethod true (fun _ _ _ => .status 307 (some ⟨0, false⟩)) [112] 0) = false ∧
+    seenBy checkDefault true (fun _ _ _ => .status 307 (some ⟨0, false⟩)) [112] 0 = none := by decide
+
+/-- an eleven-step chain (endpoint `k` redirects to `k+1`, endpoint 10 would accept): the client of F45b asks
+endpoints 0 … 9 and requeues, endpoint 10 is never asked; a ten-step chain (endpoint 9 accepts) is finished after
+endpoint 9 accepted the body -/
+example : ((wireOf checkSameMethod true (fun ep _ _ => if ep < 10 then .status 308 (some ⟨ep + 1, false⟩) else .status 200 none) 0 [112]).map (·.ep)
+      = [0, 1, 2, 3, 4, 5, 6, 7, 8, 9]) ∧
+    seenBy checkSameMethod true (fun ep _ _ => if ep < 10 then .status 308 (some ⟨ep + 1, false⟩) else .status 200 none) [112] 0 = some 308 ∧
+    seenBy checkSameMethod true (fun ep _ _ => if ep < 9 then .status 308 (some ⟨ep + 1, false⟩) else .status 200 none) [112] 0 = some 200 := by
+  decide
+
+/-! ### the client without `CheckRedirect` (tree before fix F45) -/
+
+/-- the same statement for the client that follows every redirect (net/http's default) -/
 def http_fin_only_after_body_accepted_following : Prop :=
   ∀ (c : Cfg) (counter : Nat) (m : Msg) (so : Bool) (pick : Nat) (w : World),
-    Out.fin m.id ∈ (stepVia true c counter m so pick w).2 →
-      FinJustified true c m so w (stepVia true c counter m so pick w).2
+    Out.fin m.id ∈ (stepVia checkDefault c counter m so pick w).2 →
+      FinJustified checkDefault c m so w (stepVia checkDefault c counter m so pick w).2
 
-/-- the witness world of the audit: the configured address answers `302 Location: elsewhere`,
-`elsewhere` answers 200 to anything -/
-def wMoved : World := fun ep _ _ => if ep = 0 then .status 302 (some 1) else .status 200 none
-
-/-- … is **false**: POST `"p"` → 302 → GET (no body) elsewhere → 200 → `Finish`; nobody received `"p"`. -/
+/-- … is **false**: POST `"p"` → 302 → GET (no body) elsewhere → 200 → `Finish`; nobody accepted `"p"`. -/
 theorem http_fin_only_after_body_accepted_following_false : ¬ http_fin_only_after_body_accepted_following := by
   intro h
-  have hstep : (stepVia true ⟨.roundRobin, 1, true, false⟩ 0 ⟨7, [112]⟩ false 0 wMoved).2 =
+  have hstep : (stepVia checkDefault ⟨.roundRobin, 1, true, false⟩ 0 ⟨7, [112]⟩ false 0 wMoved).2 =
       [Out.request 0 [112] true, Out.fin 7] := by decide
-  have hwire : wireOf true true wMoved 0 [112] =
+  have hwire : wireOf checkDefault true wMoved 0 [112] =
       [⟨0, true, some [112], some 302⟩, ⟨1, false, none, some 200⟩] := by decide
   have := h ⟨.roundRobin, 1, true, false⟩ 0 ⟨7, [112]⟩ false 0 wMoved (by rw [hstep]; simp)
   rw [hstep] at this
@@ -98,61 +297,85 @@ theorem http_fin_only_after_body_accepted_following_false : ¬ http_fin_only_aft
     · simp [accepts] at hacc
     · simp at hp
 
-/-- … and holds when no endpoint answers with a redirect that makes the client drop the message
-(only 307/308, only for the POST publisher; the 10-redirect stop is an error, i.e. a requeue). -/
+/-- … and holds when no endpoint answers with a redirect that makes that client drop the message
+(only 307/308, only for the POST publisher; the 10-redirect stop is an error, i.e. a requeue). With fix F45b this
+hypothesis on the destinations is, for the POST publisher, what the client itself guarantees
+(`http_fin_only_after_body_accepted`). -/
 theorem http_fin_only_after_body_accepted_following_partial (c : Cfg) (counter : Nat) (m : Msg) (so : Bool)
     (pick : Nat) (w : World) (hw : NoLossyRedirect c.post w)
-    (hfin : Out.fin m.id ∈ (stepVia true c counter m so pick w).2) :
-    FinJustified true c m so w (stepVia true c counter m so pick w).2 := by
-  unfold stepVia at hfin ⊢
-  cases Nsq.Props.C20.http_fin_only_after_accept c counter m so pick _ hfin with
-  | inl h => exact Or.inl h
-  | inr h =>
-    obtain ⟨hacc, hall, hone⟩ := h
-    exact Or.inr ⟨fun a b ok hreq => delivered_following c.post w a m.body hw (hacc a b ok hreq).2, hall, hone⟩
+    (hfin : Out.fin m.id ∈ (stepVia checkDefault c counter m so pick w).2) :
+    FinJustified checkDefault c m so w (stepVia checkDefault c counter m so pick w).2 :=
+  fin_justified_of_chainKeeps checkDefault c counter m so pick w (chainKeeps_noLossy checkDefault c.post w hw m.body) hfin
 
-/-- **A redirect answer is a failed delivery (fixed client).** Whatever the `Location` says, whatever the
+/-- **A redirect answer is a failed delivery (client of fix F45).** Whatever the `Location` says, whatever the
 redirect target would answer: if the address that is asked answers 3xx, the publisher sees that 3xx and
 does not accept it. -/
-theorem redirect_answer_requeues (post : Bool) (w : World) (body : Bytes) (a code : Nat) (loc : Option Nat)
+theorem redirect_answer_requeues (post : Bool) (w : World) (body : Bytes) (a code : Nat) (loc : Option Loc)
     (hans : w a post (some body) = .status code loc) (h3 : 300 ≤ code ∧ code < 400) :
-    seenBy false post w body a = some code ∧ accepts post (seenBy false post w body a) = false ∧
-    wireOf false post w a body = [⟨a, post, some body, some code⟩] := by
-  unfold seenBy wireOf
-  rw [doReq_nofollow, hans]
+    seenBy checkNever post w body a = some code ∧ accepts post (seenBy checkNever post w body a) = false ∧
+    wireOf checkNever post w a body = [⟨a, post, some body, some code⟩] := by
+  unfold seenBy wireOf redirectFuel
+  rw [doReq_never, hans]
   refine ⟨rfl, ?_, rfl⟩
   unfold accepts finalOf
   cases post <;> simp <;> omega
 
-/-- the unfixed client on the same answer: the publisher never sees the 302, it sees the target's 200 -/
-example : seenBy true true wMoved [112] 0 = some 200 ∧ seenBy false true wMoved [112] 0 = some 302 := by decide
-
 /-! ### non-vacuity -/
 
-/-- fixed client, the audit's world: one request, requeue -/
-example : (stepVia false ⟨.roundRobin, 1, true, false⟩ 0 ⟨7, [112]⟩ false 0 wMoved).2 =
+/-- the three clients on the audit's answer (POST → 302): only the default client shows the publisher the target's 200 -/
+example : seenBy checkDefault true wMoved [112] 0 = some 200 ∧ seenBy checkNever true wMoved [112] 0 = some 302 ∧
+    seenBy checkSameMethod true wMoved [112] 0 = some 302 := by decide
+/-- F45 / F45b client, the audit's world: one request, requeue -/
+example : (stepVia checkNever ⟨.roundRobin, 1, true, false⟩ 0 ⟨7, [112]⟩ false 0 wMoved).2 =
+    [Out.request 0 [112] false, Out.req 7] ∧
+    (stepVia checkSameMethod ⟨.roundRobin, 1, true, false⟩ 0 ⟨7, [112]⟩ false 0 wMoved).2 =
     [Out.request 0 [112] false, Out.req 7] := by decide
-/-- fixed client, accepting destination: `http_fin_only_after_body_accepted` applies (hypothesis satisfiable) -/
-example : Out.fin 7 ∈ (stepVia false ⟨.all, 2, true, false⟩ 0 ⟨7, [112]⟩ false 0 (fun _ _ _ => .status 204 none)).2 := by decide
-/-- following client, 307 keeps method and body: finished, and the body did arrive at endpoint 1 -/
-example : (stepVia true ⟨.roundRobin, 1, true, false⟩ 0 ⟨7, [112]⟩ false 0
-      (fun ep _ _ => if ep = 0 then .status 307 (some 1) else .status 200 none)).2 = [Out.request 0 [112] true, Out.fin 7]
-    ∧ wireOf true true (fun ep _ _ => if ep = 0 then .status 307 (some 1) else .status 200 none) 0 [112] =
-      [⟨0, true, some [112], some 307⟩, ⟨1, true, some [112], some 200⟩] := by decide
+/-- accepting destination: `http_fin_only_after_body_accepted` applies (hypotheses satisfiable) -/
+example : Out.fin 7 ∈ (stepVia checkSameMethod ⟨.all, 2, true, false⟩ 0 ⟨7, [112]⟩ false 0 (fun _ _ _ => .status 204 none)).2 := by decide
+example : Out.fin 7 ∈ (stepVia checkNever ⟨.all, 2, true, false⟩ 0 ⟨7, [112]⟩ false 0 (fun _ _ _ => .status 204 none)).2 := by decide
+/-- F45b client, 307 keeps method and body: finished, and the body did arrive at endpoint 1 (F45 client: requeue) -/
+example : (stepVia checkSameMethod ⟨.roundRobin, 1, true, false⟩ 0 ⟨7, [112]⟩ false 0
+      (fun ep _ _ => if ep = 0 then .status 307 (some ⟨1, false⟩) else .status 200 none)).2 = [Out.request 0 [112] true, Out.fin 7]
+    ∧ wireOf checkSameMethod true (fun ep _ _ => if ep = 0 then .status 307 (some ⟨1, false⟩) else .status 200 none) 0 [112] =
+      [⟨0, true, some [112], some 307⟩, ⟨1, true, some [112], some 200⟩]
+    ∧ (stepVia checkNever ⟨.roundRobin, 1, true, false⟩ 0 ⟨7, [112]⟩ false 0
+      (fun ep _ _ => if ep = 0 then .status 307 (some ⟨1, false⟩) else .status 200 none)).2 = [Out.request 0 [112] false, Out.req 7] := by
+  decide
+/-- F45b client: POST → 307 → endpoint 1 → 302: the method would change at the second hop; the 302 is handed back, both
+requests carried the body, none was accepted: requeue -/
+example : wireOf checkSameMethod true (fun ep _ _ => if ep = 0 then .status 307 (some ⟨1, false⟩) else .status 302 (some ⟨2, false⟩)) 0 [112] =
+      [⟨0, true, some [112], some 307⟩, ⟨1, true, some [112], some 302⟩] ∧
+    seenBy checkSameMethod true (fun ep _ _ => if ep = 0 then .status 307 (some ⟨1, false⟩) else .status 302 (some ⟨2, false⟩)) [112] 0 = some 302 := by
+  decide
+/-- GET publisher, F45b client, the `Location` repeats the query: finished after endpoint 1 answered 200 to a GET that
+carried the message (`KeepsQuery` is satisfiable by a world that redirects) -/
+example : wireOf checkSameMethod false wMovedQ 0 [112] = [⟨0, false, some [112], some 302⟩, ⟨1, false, some [112], some 200⟩] := by decide
+example : KeepsQuery wMovedQ := by
+  intro ep pl lk h
+  by_cases he : ep = 0
+  · simp [wMovedQ, he, followUp, redirectKind] at h; subst h; rfl
+  · simp [wMovedQ, he, followUp] at h
+example : ¬ KeepsQuery wMoved := by
+  intro h
+  have := h 0 none (⟨1, false⟩, false) (by decide)
+  simp at this
+/-- … the `Location` drops the query: finished with `AcceptedByChain` only (first request carried the message, all GET, last 200) -/
+example : wireOf checkSameMethod false wMoved 0 [112] = [⟨0, false, some [112], some 302⟩, ⟨1, false, none, some 200⟩] := by decide
 /-- `NoLossyRedirect` is satisfiable by a world with a (307) redirect, and violated by `wMoved` -/
-example : NoLossyRedirect true (fun ep _ _ => if ep = 0 then .status 307 (some 1) else .status 200 none) := by
-  intro ep p pl nk h
+example : NoLossyRedirect true (fun ep _ _ => if ep = 0 then .status 307 (some ⟨1, false⟩) else .status 200 none) := by
+  intro ep p pl lk h
   by_cases he : ep = 0
   · simp [he, followUp, redirectKind] at h; subst h; exact ⟨rfl, rfl⟩
   · simp [he, followUp] at h
 example : ¬ NoLossyRedirect true wMoved := by
   intro h
-  have := h 0 true none (1, false) (by decide)
+  have := h 0 true none (⟨1, false⟩, false) (by decide)
   simp at this
-/-- a GET is redirected as a GET to a URL without the message: finished with nothing delivered -/
-example : wireOf true false wMoved 0 [112] = [⟨0, false, some [112], some 302⟩, ⟨1, false, none, some 200⟩] := by decide
-/-- a redirect loop: ten requests, then an error (requeue) -/
-example : (doReq true (fun _ _ _ => .status 302 (some 0)) redirectLimit 0 true (some [112])).1.length = 10
-    ∧ (doReq true (fun _ _ _ => .status 302 (some 0)) redirectLimit 0 true (some [112])).2 = none := by decide
+/-- the default client in a redirect loop: ten requests, then an error (requeue) -/
+example : (doReq checkDefault (fun _ _ _ => .status 302 (some ⟨0, false⟩)) true redirectFuel 0 0 true (some [112])).1.length = 10
+    ∧ (doReq checkDefault (fun _ _ _ => .status 302 (some ⟨0, false⟩)) true redirectFuel 0 0 true (some [112])).2 = none := by decide
+/-- `at_most_ten_requests` / `seen_is_last_answer` apply to both accepted shapes and to this tree's client -/
+example : Limited checkSameMethod ∧ NoError checkSameMethod ∧ Limited checkNever ∧ NoError checkNever :=
+  ⟨limited_sameMethod, noError_sameMethod, limited_never, noError_never⟩
 
 end Nsq.Props.C20Redirect
